@@ -1,10 +1,12 @@
 import Glom.Model.C02
 import Glom.Generated.TFacts
 import Glom.Generated.ExcFacts
+import Glom.Generated.C02Facts
 /-
   The facts of C02 instantiated with the tables regenerated from /repo:
   the TType overloads that record an op, `_t_eval`'s branch table, the third
-  argument of its PathAccessError(…) calls, and the exception MROs.
+  argument of its PathAccessError(…) calls, the exception MROs, and the type tests of
+  `_ArgValuator.mode` (C02Facts, extract/facts/c02.py).
 -/
 namespace Glom.C02
 open Glom
@@ -15,6 +17,9 @@ def genFacts : Facts :=
     partIdx := Generated.tPartIdxExprs
     argExempt := Generated.tArgValExempt
     argShapeOk := Generated.tArgValShapeOk
+    argExact := Generated.argModeExact
+    argInst := Generated.argModeInst
+    argModeShapeOk := Generated.argModeShapeOk
     exc := Generated.excTable }
 
 end Glom.C02
